@@ -372,7 +372,51 @@ def rule_r4(p, res):
     r.check(len(k) == 1 and {a.arg: norm(a.value) for a in k[0].keywords} == {"samples": "samples", "subtract_mean": "subtract_mean", "square_root": "square_root"}, md, md.node, "the public method must forward its flags")
 
 
-RULES = [rule_r1, rule_r2, rule_r3, rule_r4]
+INVERTERS = ("_covariance_matrix_inverse", "inv", "pinv")
+
+
+def stored_state_is_covariance(p, r, routines):
+    """shared by C11.R3 and C12.R5"""
+    stores = 0
+    for name in routines:
+        f = p.func(GM + name)
+        g = cfgmod.build(f.node)
+        d = Defs(f.node)
+        for n in walk_own(f.node):
+            if isinstance(n, ast.Assign) and isinstance(n.targets[0], ast.Subscript) and norm(n.targets[0].value) in ("all_covariances", "covariances") and isinstance(n.value, ast.Name):
+                stores += 1
+                rd = cfgmod.reaching_defs(g, d, n.value.id, n)
+                inv = [st for k, v, st in rd if isinstance(v, ast.Call) and (dotted(v.func) or "").split(".")[-1] in INVERTERS]
+                r.check(not inv, f, n, "%s stores `%s` after it was overwritten with its inverse (`%s`): the covariances kept for increment() are then inverses, so the first increment "
+                        "already yields a wrong precision" % (name, n.value.id, norm(inv[0])[:60] if inv else ""), {"routine": name, "stored": norm(n)[:50]})
+    return stores
+
+
+def rule_r5(p, res):
+    r = res.rule("C12.R5", "the per-block state kept for later increments is the covariance, not its inverse; progress-reporting and silent loops cover the same items")
+    stores = stored_state_is_covariance(p, r, EDGE_ROUTINES + DIAG_ROUTINES)
+    for name in EDGE_ROUTINES + DIAG_ROUTINES:
+        f = p.func(GM + name)
+        r.instance(f)
+        # verbose / silent iteration
+        its = {}
+        for n in walk_own(f.node):
+            if isinstance(n, ast.Assign) and isinstance(n.targets[0], ast.Name) and isinstance(n.value, ast.Call):
+                v = n.value
+                if (dotted(v.func) or "") == "range":
+                    its.setdefault(n.targets[0].id, {})["plain"] = (norm(v), n)
+                elif (dotted(v.func) or "").split(".")[-1] == "print_progress" and v.args and isinstance(v.args[0], ast.Call) and (dotted(v.args[0].func) or "") == "range":
+                    ni = kwarg(v, "n_items")
+                    its.setdefault(n.targets[0].id, {})["verbose"] = (norm(v.args[0]), n, norm(ni) if ni is not None else None)
+        for nm, e in its.items():
+            if "plain" in e and "verbose" in e:
+                r.check(e["plain"][0] == e["verbose"][0], f, e["verbose"][1], "%s iterates `%s` with verbose=True but `%s` otherwise: with progress reporting switched on a different set of "
+                        "blocks is filled in" % (name, e["verbose"][0], e["plain"][0]), {"routine": name, "loop": e["plain"][0]})
+    if stores < 4:
+        raise AnalysisError("C12.R5: only %d covariance stores found in the create routines (floor 4)" % stores)
+
+
+RULES = [rule_r1, rule_r2, rule_r3, rule_r4, rule_r5]
 
 WITNESSES = [
     Witness("C12.W1", "menpo/model/gmrf.py", "_create_dense_precision", "precision[v1_from:v1_to, v1_from:v1_to] += covmat[:n_features_per_vertex, :n_features_per_vertex]",
@@ -392,4 +436,12 @@ WITNESSES = [
     Witness("C12.W10", "menpo/model/gmrf.py", "_covariance_matrix_inverse", "d = d[:n_components, :]", "d = d[:, :n_components]", rule="C12.R2", construct="_covariance_matrix_inverse", note="seeded change C12-B"),
     Witness("C12.T1", "menpo/model/gmrf.py", "_create_dense_precision", "precision[v1_from:v1_to, v2_from:v2_to] = -covmat\n            precision[v2_from:v2_to, v1_from:v1_to] = -covmat",
             "precision[v2_from:v2_to, v1_from:v1_to] = -covmat\n            precision[v1_from:v1_to, v2_from:v2_to] = -covmat", kind="T"),
+]
+
+WITNESSES += [
+    Witness("C12.W11", "menpo/model/gmrf.py", "_create_dense_precision",
+            "if return_covariances:\n            all_covariances[e] = covmat\n        covmat = _covariance_matrix_inverse(covmat, n_components)", "covmat = _covariance_matrix_inverse(covmat, n_components)\n        if return_covariances:\n            all_covariances[e] = covmat",
+            rule="C12.R5", construct="_create_dense_precision", note="seeded change R3-C12-C"),
+    Witness("C12.W12", "menpo/model/gmrf.py", "_create_sparse_diagonal_precision", "print_progress(range(graph.n_vertices), n_items=graph.n_vertices,", "print_progress(range(graph.n_edges), n_items=graph.n_edges,",
+            rule="C12.R5", construct="_create_sparse_diagonal_precision", note="seeded change R3-C12-A"),
 ]
